@@ -5,6 +5,7 @@ the theorems here are the spelling agreements the property names: a type is refe
 name it is defined under, in every writer that mentions types.
 -/
 import ZeepVerif.Model.Emit
+import ZeepVerif.Lemmas.SplitType
 import ZeepVerif.Props.C14
 
 namespace ZeepVerif.Props.C01
@@ -18,9 +19,9 @@ theorem c01_definition_spelling (p : CProps) :
   simp [complexPrefix, complexHead]
 
 theorem c01_reference_spelling (d : Doc) (pfx l : String) (n : Ns) (hp : lookupNs d pfx = some n)
-    (hsplit : splitType (pfx ++ ":" ++ l) = (l, some pfx)) :
+    (hcolon : ':' ∉ pfx.toList) :
     (asRustType d (pfx ++ ":" ++ l)).render = n.rustModName ++ "::" ++ xmlNameToRustName l := by
-  simp [asRustType, hsplit, hp, FType.render]
+  simp [asRustType, ZeepVerif.Lemmas.SplitType.splitType_prefixed pfx l hcolon, hp, FType.render]
 
 /-- the module a namespace's components are emitted in is the module references to it are qualified
     with: both are the `rustModName` of the one `Ns` record (created as `mod_` ++ abbreviation) -/
